@@ -18,13 +18,14 @@
  * After every operation the driver prints (all to the ORIGINAL stdout; everything libnev prints to
  * fd 1 / fd 2 during the call is captured and shown hex-encoded):
  *   @ <index> <the operation as read>
- *   RET <return code | ->
  *   OUT <hex>                 captured stdout of the call
  *   ERR <hex>                 captured stderr of the call
+ *   RET <return code | ->
  *   -- compile:   MOD <h> code=<size>:<entry>:<fnv64> exc=<count>:<fnv64> str=<n>:<fnv64> ft=<n>:<fnv64>
  *   -- prepare:   PREP params=<n> addr=<entry_addr> types=<t,t,..>
  *   -- execute:   EXE init=<0|1> before=<sp>,<fp>,<pp> after=<sp>,<fp>,<pp> peak=<max sp seen by the step hook>
- *                     entrysp=<sp when ip first reached code_entry | -> steps=<n> state=<vm_state after>
+ *                     entrysp=<sp when ip first reached code_entry | -> ipeak=<peak before that moment>
+ *                     speak=<peak from that moment on | -> steps=<n> state=<vm_state after | exit>
  *                 RES <type> <value>   (int/long decimal, float/double bit pattern, char code)
  *   then the digest of EVERY live handle (the isolation oracle compares the ones not named by the op):
  *   P <h> ret=<compile ret> code=<size>:<entry>:<hash> msgs=<count>:<hash> prep=<params_count>:<entry_addr>
@@ -70,7 +71,7 @@ static char cap_out_name[64], cap_err_name[64];
 static int in_call = 0, cur_index = 0, cur_is_exec = 0;
 
 /* step hook state */
-static int h_peak, h_entrysp, h_entry_seen;
+static int h_peak, h_ipeak, h_speak, h_entrysp, h_entry_seen;
 static unsigned long h_steps;
 static unsigned h_code_entry;
 static int e_init, e_sp, e_fp, e_pp;
@@ -122,7 +123,8 @@ static void step_hook(vm * m, bytecode * bc)
 {
     h_steps++;
     if (m->sp > h_peak) h_peak = m->sp;
-    if (!h_entry_seen && m->ip == h_code_entry) { h_entry_seen = 1; h_entrysp = m->sp; }
+    if (!h_entry_seen && m->ip == h_code_entry) { h_entry_seen = 1; h_entrysp = m->sp; h_ipeak = h_peak; h_speak = m->sp; }
+    if (h_entry_seen && m->sp > h_speak) h_speak = m->sp;
 }
 
 static void on_exit_handler(void)
@@ -136,8 +138,9 @@ static void on_exit_handler(void)
     if (cur_is_exec && e_vm != NULL)
     {
         fprintf(out, "EXE init=%d before=%d,%d,%d after=%d,%d,%d peak=%d entrysp=", e_init, e_sp, e_fp, e_pp,
-                e_vm->sp, e_vm->fp, e_vm->pp, h_peak);
-        if (h_entry_seen) fprintf(out, "%d", h_entrysp); else fprintf(out, "-");
+                e_vm->sp, e_vm->fp, e_vm->pp, h_peak > e_vm->sp ? h_peak : e_vm->sp);
+        if (h_entry_seen) fprintf(out, "%d ipeak=%d speak=%d", h_entrysp, h_ipeak, h_speak > e_vm->sp ? h_speak : e_vm->sp);
+        else fprintf(out, "- ipeak=%d speak=-", h_peak > e_vm->sp ? h_peak : e_vm->sp);
         fprintf(out, " steps=%lu state=exit\n", h_steps);
     }
     fflush(out);
@@ -411,7 +414,7 @@ int main(int argc, char ** argv)
                 object result = { 0 };
                 vm * m = vms[v];
                 e_vm = m; e_init = (int)m->initialized; e_sp = m->sp; e_fp = m->fp; e_pp = m->pp;
-                h_peak = m->sp; h_steps = 0; h_entry_seen = 0; h_entrysp = 0;
+                h_peak = m->sp; h_ipeak = m->sp; h_speak = m->sp; h_steps = 0; h_entry_seen = 0; h_entrysp = 0;
                 h_code_entry = progs[h]->module_value->code_entry;
                 cur_is_exec = 1;
                 begin_capture();
@@ -420,8 +423,9 @@ int main(int argc, char ** argv)
                 cur_is_exec = 0;
                 fprintf(out, "RET %d\n", ret);
                 fprintf(out, "EXE init=%d before=%d,%d,%d after=%d,%d,%d peak=%d entrysp=", e_init, e_sp, e_fp, e_pp,
-                        m->sp, m->fp, m->pp, h_peak);
-                if (h_entry_seen) fprintf(out, "%d", h_entrysp); else fprintf(out, "-");
+                        m->sp, m->fp, m->pp, h_peak > m->sp ? h_peak : m->sp);
+                if (h_entry_seen) fprintf(out, "%d ipeak=%d speak=%d", h_entrysp, h_ipeak, h_speak > m->sp ? h_speak : m->sp);
+                else fprintf(out, "- ipeak=%d speak=-", h_peak > m->sp ? h_peak : m->sp);
                 fprintf(out, " steps=%lu state=%d\n", h_steps, (int)m->running);
                 if (ret == 0) print_result(&result);
             }
